@@ -154,6 +154,8 @@ def check(repo, col, tier):
     c11.group_normal_form(repo, col, "R-C20-groups")
     col.rule("R-C20-locs", "the recorded pre / post location is the centre of the recorded compartment within its own branch", 3)
     recorded_locs(repo, col, "R-C20-locs")
+    col.rule("R-C20-rows", "one edge row per requested pair: parts aligned by position, pre / post compartment columns from their own side", 6)
+    edge_rows(repo, col, "R-C20-rows")
     # the builders create sub-views of the population views they are given (cell by cell): a sub-view's edges are those of its parent
     col.rule("R-C20-views", "a sub-view keeps only edges of its parent view, with both ends in view", 3)
     c11._edges(repo, col, "R-C20-views")
@@ -161,6 +163,111 @@ def check(repo, col, tier):
     c11.listed_in_view(repo, col, "R-C20-views")
     # ... and the populations are selected with `net.cell(<index>)`: every index form names the cells it says (a slice with its step)
     c11._index(repo, col, "R-C20-views")
+
+
+def edge_rows(repo, col, R):
+    """Network._append_multiple_synapses writes one row per requested (pre, post) pair.  The row is put together from three
+    tables side by side (`pd.concat(axis=1)`), which ALIGNS ON ROW LABELS: the fresh edge numbers carry 0..n-1, so each of the two
+    node tables must be re-labelled 0..n-1 as well (`reset_index(drop=True)`) or pairs are torn apart.  The column that ends up as
+    `<side>_global_comp_index` is the `global_comp_index` of that side's nodes; the new edges are numbered from the base's edge
+    count, one number per pair.  Local helpers are looked through (their column renamings included)."""
+    from sa.terms import canon
+    from .c11 import _str_parts
+    fi = repo.method("Network", "_append_multiple_synapses")
+    ex = idx.expander(repo, fi)
+    st = [s_ for s_ in ex.stores if s_.kind == "attr" and s_.key.name == "edges" and s_.base.op == "attr" and s_.base.name == "base"]
+    if not st:
+        raise AnalysisError("_append_multiple_synapses no longer stores the base module's edge table")
+    raw = st[-1].value
+    SIDES = ("pre_nodes", "post_nodes")
+
+    def strs(t):
+        """a list of column names as python strings, or None"""
+        if t.op != "list":
+            return None
+        out = []
+        for c in t.args:
+            parts = _str_parts(c)
+            if len(parts) != 1 or not isinstance(parts[0], str):
+                return None
+            out.append(parts[0])
+        return out
+
+    # column renamings `X.columns = [...]`, in this function and in the local helpers it calls (arguments substituted)
+    renames = {}
+    for s_ in ex.stores:
+        if s_.kind == "attr" and s_.key.name == "columns":
+            renames[canon(idx.inline(repo, fi, s_.base, value_only=True)).key()] = s_.value
+    for c in T.find_all(raw, lambda x: x.op == "call" and x.name in ex.nested):
+        ne = ex.nested[c.name]
+        m = idx._bind(ne.fi.node, list(c.args), c.kw)
+        if m is None:
+            continue
+        for s_ in ne.stores:
+            if s_.kind == "attr" and s_.key.name == "columns":
+                renames[canon(idx.inline(repo, fi, idx.subst(s_.base, m), value_only=True)).key()] = idx.subst(s_.value, m)
+    v = canon(idx.inline(repo, fi, raw, value_only=True))
+    side_by_side = T.find(v, lambda x: x.op in ("mcall", "call") and x.name == "concat" and x.kw.get("axis") is not None and x.kw["axis"].op == "const"
+                          and x.kw["axis"].name in (1, "columns"))
+    if side_by_side is None:
+        col.unk(R, fi, "new edge rows: construction", f"no side-by-side concatenation found in {v.short(120)}", node=st[-1].node)
+        return
+    parts = [a for a in side_by_side.args if a.op == "list"]
+    parts = list(parts[0].args) if parts else []
+    sides = {}
+    for part in parts:
+        sel = T.find(part, lambda x: x.op == "sub" and x.args[0].op == "param" and x.args[0].name in SIDES)
+        src = sel.args[0] if sel is not None else (part if part.op == "param" and part.name in SIDES else None)
+        fresh = part.op in ("mcall", "call") and part.name == "DataFrame"
+        relabel = T.find(part, lambda x: x.op == "mcall" and x.name == "reset_index" and x.kw.get("drop") is not None and x.kw["drop"].name is True)
+        what = f"{src.name} part" if src is not None else "edge-number part"
+        col.check(fresh or relabel is not None, R, fi, f"new edge rows: the {what} is labelled 0..n-1 before the side-by-side concatenation",
+                  "fresh DataFrame" if fresh else "reset_index(drop=True)",
+                  f"`{part.short(90)}` keeps the row labels of the node table: pd.concat(axis=1) aligns on labels, so the pre compartment, the "
+                  f"post compartment and the edge number of one pair land in different rows (NaN elsewhere)", node=st[-1].node)
+        if src is None:
+            continue
+        side = src.name.split("_")[0]
+        cols_from = None
+        if sel is not None:
+            k = sel.args[1]
+            cols_from = strs(k) if k.op == "list" else ([k.name] if k.op == "const" else None)
+        new_names = None
+        for sub_ in part.walk():
+            if sub_.key() in renames:
+                new_names = strs(renames[sub_.key()])
+                break
+        if new_names is None:
+            rn = T.find(part, lambda x: x.op == "mcall" and x.name == "rename" and x.kw.get("columns") is not None)
+            if rn is not None and rn.kw["columns"].op == "dict":
+                m = {}
+                for kv in rn.kw["columns"].args:
+                    a_, b_ = (_str_parts(kv.args[0]), _str_parts(kv.args[1])) if kv.op == "kv" else ([None], [None])
+                    if len(a_) == 1 and len(b_) == 1 and isinstance(a_[0], str) and isinstance(b_[0], str):
+                        m[a_[0]] = b_[0]
+                new_names = [m.get(c, c) for c in (cols_from or [])]
+        sides[side] = (cols_from, new_names)
+        if cols_from is None or new_names is None or len(cols_from) != len(new_names):
+            col.unk(R, fi, f"new edge rows: {side}_global_comp_index is the global compartment index of the {side} nodes",
+                    f"columns {cols_from} -> {new_names} not recognised", node=st[-1].node)
+        else:
+            m = dict(zip(new_names, cols_from))
+            col.check(m.get(f"{side}_global_comp_index") == "global_comp_index", R, fi,
+                      f"new edge rows: {side}_global_comp_index is the global compartment index of the {side} nodes", "",
+                      f"the {src.name} columns {cols_from} are stored as {new_names}", node=st[-1].node)
+    col.check(set(sides) == {"pre", "post"}, R, fi, "new edge rows hold a pre and a post part", "", f"parts from {sorted(sides)}", node=st[-1].node)
+    # numbering
+    rng = T.find(side_by_side, lambda x: x.op == "call" and x.name == "range" and len(x.args) == 2)
+    nbase = lambda t: t.op == "call" and t.name == "len" and t.args[0].op == "attr" and t.args[0].name == "edges" and t.args[0].args[0].op == "attr" \
+        and t.args[0].args[0].name == "base"
+    npairs = lambda t: t.op == "call" and t.name == "len" and t.args[0].op == "param" and t.args[0].name in SIDES
+    if rng is None:
+        col.unk(R, fi, "new edges are numbered len(base.edges) .. + number of pairs", "numbering not recognised", node=st[-1].node)
+    else:
+        a, b = rng.args
+        ok = nbase(a) and b.op == "binop" and b.name == "+" and len(b.args) == 2 and ((nbase(b.args[0]) and npairs(b.args[1])) or (nbase(b.args[1]) and npairs(b.args[0])))
+        col.check(ok, R, fi, "new edges are numbered len(base.edges) .. + number of pairs", "",
+                  f"the new rows are numbered {rng.short(100)}: one number per pair, continuing the BASE module's edge table", node=st[-1].node)
 
 
 def recorded_locs(repo, col, R):
